@@ -177,6 +177,11 @@ Definition uses_sequence (u : universe) : bool :=
 (* coverage: a nillable element field *)
 Definition uses_nillable (u : universe) : bool :=
   existsb (fun km => existsb (fun e => existsb v_nillable (snd e)) (m_elements (snd km))) (u_metas u).
+(* coverage: a nillable class, or a nillable element field of class type *)
+Definition uses_nillable_class (u : universe) : bool :=
+  existsb (fun km => m_nillable (snd km)
+                     || existsb (fun e => existsb (fun v => v_nillable v && match v_clazz v with Some _ => true | None => false end) (snd e))
+                                (m_elements (snd km))) (u_metas u).
 
 (* coverage: a class with a field of its own type *)
 Definition uses_recursion (u : universe) : bool :=
